@@ -19,10 +19,10 @@ BENIGN = os.path.join(HERE, "benign")
 ALL = S.ALL
 
 
-def ingest(src, prop):
+def ingest(src, prop, offset=0):
     for d in sorted(glob.glob(os.path.join(src, "benign*.diff"))):
         i = os.path.basename(d)[6:-5]
-        bid = "%s-b%s" % (prop, i)
+        bid = "%s-b%s" % (prop, int(i) + offset if i.isdigit() else i)
         dst = os.path.join(BENIGN, bid)
         os.makedirs(dst, exist_ok=True)
         shutil.copy(d, os.path.join(dst, "patch.diff"))
@@ -90,7 +90,7 @@ def run_checks(bid, props):
 def main():
     cmd = sys.argv[1]
     if cmd == "ingest":
-        return ingest(sys.argv[2], sys.argv[3])
+        return ingest(sys.argv[2], sys.argv[3], int(sys.argv[4]) if len(sys.argv) > 4 else 0)
     ids = sorted(i for i in os.listdir(BENIGN) if os.path.isdir(os.path.join(BENIGN, i))) if os.path.isdir(BENIGN) else []
     args = [a for a in sys.argv[2:] if not a.startswith("--")]
     if args:
